@@ -15,6 +15,7 @@ package match
 
 import (
 	"errors"
+	"sort"
 	"strings"
 )
 
@@ -213,7 +214,18 @@ func (m *Matcher) mapcatMatch(bss []Bindings, pattern map[string]interface{}, fa
 		return nil, err
 	}
 
-	for k, v := range pattern {
+	// Consider the pattern's properties in a fixed (sorted) order.
+	// Otherwise Go's randomized map iteration order makes the result
+	// (and whether an error is reported) vary from call to call when
+	// a variable occurs at more than one property.
+	keys := make([]string, 0, len(pattern))
+	for k := range pattern {
+		keys = append(keys, k)
+	}
+	sort.Strings(keys)
+
+	for _, k := range keys {
+		v := pattern[k]
 		if m.IsVariable(k) {
 			if m.AllowPropertyVariables {
 				if len(pattern) == 1 {
